@@ -13,8 +13,8 @@ import time
 import traceback
 
 ROOT = os.path.dirname(os.path.dirname(os.path.abspath(__file__)))
-OUT = os.path.join(ROOT, "out")
-EVID = os.path.join(ROOT, "evidence")
+OUT = os.environ.get("VERIF_OUT_DIR") or os.path.join(ROOT, "out")
+EVID = os.environ.get("VERIF_EVIDENCE_DIR") or os.path.join(ROOT, "evidence")
 VENV_PY = "/venv/bin/python"
 REPO = os.environ.get("VERIF_REPO", "/repo")
 
